@@ -267,6 +267,8 @@ def models(tier, tmpdir):
         if sp0["label"] in ("fac:2:per-task:two-conveyor:plain:both",):
             sp = dict(sp0, workplaces=[dict(wp, wire_inputs="one-sided") for wp in sp0["workplaces"]], teams=[dict(tm, wire="ctor") for tm in sp0["teams"]])
             out.append((sp, {"rule": "TSLACK", "max_time": F.seq_bound(sp) + 8}, "one-sided-wiring"))
+            sp = dict(sp0, workplaces=[dict(wp, wire_inputs="one-sided-out") for wp in sp0["workplaces"]])
+            out.append((sp, {"rule": "TSLACK", "max_time": F.seq_bound(sp) + 8}, "links-declared-on-the-sending-side-only"))
     out.append((F.shared_child_spec(), {"rule": "TSLACK", "max_time": 20}, "shared-child"))
     out.append((F.team_hierarchy_spec(), {"rule": "TSLACK", "max_time": 12}, "hierarchy"))
     out.append((F.idle_component_spec(), {"rule": "TSLACK", "max_time": 14}, "idle-component"))
